@@ -405,6 +405,19 @@ theorem counterexample : ¬ full := by
   revert this
   decide
 
+/-! the former panic (fix 637545e): a `string` scalar holding the constant `1` -/
+def wOdd : Obj := { name := "K", selfPkg := "p", selfName := "K", ty := .scalar "string" (.int "i" 1) [] freshMeta }
+def wOddSchemas : Schemas := [{ pkg := "p", objects := [("K", wOdd)] }]
+
+def outKind : Outcome Schemas → String
+  | .ok _ => "ok" | .err _ => "err" | .panic _ => "panic"
+
+/-- before the fix the pass panicked on it … -/
+theorem preFix_panics : outKind (runPreFix wP wOddSchemas) = "panic" := by decide
+
+/-- … now the object is left alone: not a target, the schemas come back unchanged -/
+theorem odd_constant_untouched : targets wP default wOdd = false ∧ outKind (run wP wOddSchemas) = "ok" := by decide
+
 end ConstantToEnum
 
 /-! ## hint_object -/
